@@ -14,6 +14,7 @@ Which line an *error* carries is determined by the definitions characterised in 
 `prepassCmd_first_error`: the offending command's or argument's own line).
 -/
 import MPilot.Model.Grammar
+import MPilot.Model.Eems2
 import Mathlib.Tactic.Common
 
 namespace MPilot.C11
@@ -108,5 +109,125 @@ where
     unfold scanFloat scanMantissa optSign spanDigits; simp [List.span, List.span.loop, isDig]
   scanInt_q (l : List Char) : scanInt ('"' :: l) = none := by
     unfold scanInt optSign spanDigits; simp [List.span, List.span.loop, isDig]
+
+/-! ### the line an error carries
+
+Load-time errors (`Program.from_source` / `add_command`) and validation errors (the pre-pass of `Program.run`) carry the line *of a command or
+argument of the model* - namely the offending one; never a line that belongs to nothing in the file. -/
+
+/-- what a load error can be, and where its line comes from -/
+inductive LoadErrAt (lib : String → Option CmdDecl) (n : Node) : PErr → Prop
+  | unknown : lib n.command = none → LoadErrAt lib n (.mp "CommandDoesNotExist" n.line)
+  | duplicate : LoadErrAt lib n (.mp "DuplicateResult" n.line)
+  | missing : LoadErrAt lib n (.mp "MissingParameters" n.line)
+  | undeclared (decl : CmdDecl) (a : Arg) : lib n.command = some decl → a ∈ dedupArgs n.args → decl.input? a.name = none →
+      LoadErrAt lib n (.mp "NoSuchParameter" a.line)
+
+theorem addCommand_error_cases (p : Program) (decl : CmdDecl) (rn : String) (args : List Arg) (line : Option Nat) (e : PErr)
+    (h : addCommand p decl rn args line = .error e) :
+    e = .mp "DuplicateResult" line ∨ e = .mp "MissingParameters" line ∨
+      ∃ a ∈ args, decl.input? a.name = none ∧ e = .mp "NoSuchParameter" a.line := by
+  unfold addCommand at h
+  split at h
+  · left; injection h with h; exact h.symm
+  · split at h
+    · right; left; injection h with h; exact h.symm
+    · split at h
+      · rename_i a ha
+        right; right
+        have hm := List.mem_of_find?_eq_some ha
+        have hp := List.find?_some ha
+        injection h with h
+        refine ⟨a, hm, ?_, h.symm⟩
+        simp only [Bool.and_eq_true, Option.isNone_iff_eq_none] at hp
+        exact hp.1
+      · cases h
+
+/-- **every load error carries the line of the offending command, or of the offending (undeclared) argument of that command**:
+the first command that cannot be added decides, and the error names it -/
+theorem load_error_line (lib : String → Option CmdDecl) : ∀ (nodes : List Node) (p : Program) (e : PErr),
+    fromNodes lib p nodes = .error e → ∃ n ∈ nodes, LoadErrAt lib n e := by
+  intro nodes
+  induction nodes with
+  | nil => intro p e h; simp [fromNodes] at h
+  | cons n rest ih =>
+    intro p e h
+    unfold fromNodes at h
+    split at h
+    · rename_i hl
+      injection h with h; subst h
+      exact ⟨n, List.mem_cons_self, .unknown hl⟩
+    · rename_i decl hl
+      split at h
+      · rename_i e' he
+        injection h with h; subst h
+        refine ⟨n, List.mem_cons_self, ?_⟩
+        rcases addCommand_error_cases _ _ _ _ _ _ he with rfl | rfl | ⟨a, ha, hna, rfl⟩
+        · exact .duplicate
+        · exact .missing
+        · exact .undeclared decl a hl ha hna
+      · rename_i p' _
+        obtain ⟨m, hm, hme⟩ := ih p' e h
+        exact ⟨m, List.mem_cons_of_mem _ hm, hme⟩
+
+/-- the same for a command file: the line is the line the parser gave to that command / argument (`toNode`, `toArg`), i.e. - by `lexAll_lines` and
+the grammar - the source line on which it starts -/
+theorem load_error_line_parsed (lib : String → Option CmdDecl) (p : Program) (cs : List CNode) (e : PErr)
+    (h : fromNodes lib p (cs.map toNode) = .error e) :
+    ∃ c ∈ cs, LoadErrAt lib (toNode c) e := by
+  obtain ⟨n, hn, hne⟩ := load_error_line lib _ p e h
+  obtain ⟨c, hc, rfl⟩ := List.mem_map.mp hn
+  exact ⟨c, hc, hne⟩
+
+/-- **every validation error of the pre-pass carries the line of the argument whose value was refused** (an argument of a command of the program,
+declared by that command, whose cleaning fails with exactly that error class) -/
+theorem prepassCmd_error_line (ctx : Ctx) (c : PCmd) : ∀ (args : List Arg) (e : PErr), prepassCmd ctx c args = .error e →
+    ∃ a ∈ args, ∃ i ce, c.decl.input? a.name = some i ∧ clean ctx i.spec a.value = .error ce ∧ e = cleanErrToPErr ce a.line := by
+  intro args
+  induction args with
+  | nil => intro e h; simp [prepassCmd] at h
+  | cons a rest ih =>
+    intro e h
+    unfold prepassCmd at h
+    split at h
+    · obtain ⟨b, hb, hrest⟩ := ih e h
+      exact ⟨b, List.mem_cons_of_mem _ hb, hrest⟩
+    · rename_i i hi
+      split at h
+      · rename_i ce hce
+        injection h with h
+        exact ⟨a, List.mem_cons_self, i, ce, hi, hce, h.symm⟩
+      · split at h
+        · rename_i e' he
+          injection h with h; subst h
+          obtain ⟨b, hb, hrest⟩ := ih _ he
+          exact ⟨b, List.mem_cons_of_mem _ hb, hrest⟩
+        · exfalso
+          split at h <;> cases h
+
+theorem prepass_error_line (ctx : Ctx) : ∀ (cmds : List PCmd) (e : PErr), prepass ctx cmds = .error e →
+    ∃ c ∈ cmds, ∃ a ∈ c.args, ∃ i ce, c.decl.input? a.name = some i ∧ clean ctx i.spec a.value = .error ce ∧ e = cleanErrToPErr ce a.line := by
+  intro cmds
+  induction cmds with
+  | nil => intro e h; simp [prepass] at h
+  | cons c rest ih =>
+    intro e h
+    unfold prepass at h
+    split at h
+    · rename_i e' he
+      injection h with h; subst h
+      obtain ⟨a, ha, hr⟩ := prepassCmd_error_line ctx c c.args _ he
+      exact ⟨c, List.mem_cons_self, a, ha, hr⟩
+    · split at h
+      · rename_i e' he
+        injection h with h; subst h
+        obtain ⟨c', hc', hr⟩ := ih _ he
+        exact ⟨c', List.mem_cons_of_mem _ hc', hr⟩
+      · cases h
+
+/-- and a refused value is reported with its argument's line whatever the error class (`cleanErrToPErr` attaches `a.line` to every MPilot error) -/
+theorem cleanErr_line (ce : CleanErr) (line : Option Nat) (h : ce ≠ "OutsideModel") : cleanErrToPErr ce line = .mp ce line := by
+  unfold cleanErrToPErr
+  simp [h]
 
 end MPilot.C11
